@@ -29,7 +29,7 @@ type C15Case struct {
 	Defaulted bool                         `json:"defaulted"`
 	Pods      []*corev1.Pod                `json:"pods"`
 	Revs      []*appsv1.ControllerRevision `json:"revs"`
-	Steps     []int                        `json:"steps"` // 0 reconcile, 1 kubelet-all, 2 reconcile with permuted cache, 3 refresh, 4 the set is deleted with orphan propagation and re-created under its name
+	Steps     []int                        `json:"steps"` // 0 reconcile, 1 kubelet-all, 2 reconcile with permuted cache, 3 refresh, 4 the set is deleted with orphan propagation and re-created under its name, 5 reconcile during which - right before the status write - the set is deleted (the cache sees it) and re-created (the cache does not yet)
 }
 
 func (c C15Case) Summary() interface{} {
@@ -267,7 +267,7 @@ func genC15(rt *rapid.T) C15Case {
 	c.Revs = genC15Revs(rt, c.Set)
 	n := rapid.IntRange(1, 8).Draw(rt, "nsteps")
 	for i := 0; i < n; i++ {
-		c.Steps = append(c.Steps, rapid.SampledFrom([]int{0, 0, 0, 0, 1, 1, 2, 3, 4}).Draw(rt, "step"))
+		c.Steps = append(c.Steps, rapid.SampledFrom([]int{0, 0, 0, 0, 1, 1, 2, 3, 4, 5}).Draw(rt, "step"))
 	}
 	return c
 }
@@ -303,12 +303,33 @@ func runC15(rep Rep, c C15Case) {
 	key := NS + "/" + set.Name
 	for i, st := range c.Steps {
 		switch st {
-		case 0, 2:
+		case 0, 2, 5:
 			cl.ListPerm = 0
 			if st == 2 {
 				cl.ListPerm = uint64(i + 7)
 			}
+			if st == 5 {
+				flapped := false
+				cl.Intercept = func(a *sim.Action) *sim.Fault {
+					if flapped || a.Resource != "statefulsets" || a.Subresource != "status" || a.Verb != "update" {
+						return nil
+					}
+					flapped = true
+					if old := cl.Set(NS, set.Name); old != nil {
+						cl.Remove(sim.GVRASts, NS, set.Name)
+						cl.RefreshSet(NS, set.Name, false) // the informer has seen the deletion ...
+						n := old.DeepCopy()
+						n.UID, n.ResourceVersion, n.Generation = "", "", 1
+						n.CreationTimestamp = metav1.Time{}
+						n.Status = asv1.StatefulSetStatus{}
+						cl.Put(n) // ... but not yet the object re-created under the same name
+						rep.Label("set-flapped-before-status-write")
+					}
+					return nil
+				}
+			}
 			r := cl.Reconcile(key)
+			cl.Intercept = nil
 			if r.Panic != nil {
 				rep.Violate("panic@"+repoFrame(r.Stack), "reconcile panicked: %v\n%s\n%s", r.Panic, r.Transcript(), r.Stack)
 			}
